@@ -3236,6 +3236,11 @@ impl Server {
             _ => return Ok(RespFrame::error("ERR invalid expiration format")),
         };
         
+        // The expire time must be positive
+        if seconds == 0 {
+            return Ok(RespFrame::error("ERR invalid expire time in 'setex' command"));
+        }
+        
         let value = match &parts[3] {
             RespFrame::BulkString(Some(bytes)) => bytes.as_ref().clone(),
             _ => return Ok(RespFrame::error("ERR invalid value format")),
@@ -3265,6 +3270,11 @@ impl Server {
             }
             _ => return Ok(RespFrame::error("ERR invalid expiration format")),
         };
+        
+        // The expire time must be positive
+        if millis == 0 {
+            return Ok(RespFrame::error("ERR invalid expire time in 'psetex' command"));
+        }
         
         let value = match &parts[3] {
             RespFrame::BulkString(Some(bytes)) => bytes.as_ref().clone(),
